@@ -375,6 +375,9 @@ def run_crash(rep, tier, sd, only=None):
         counts = {}
         for i, c in enumerate(cal):
             r = fault(d, i, c)
+            if str(r.get("res", "")).startswith("exc:"):
+                rep.violation("C20/repair/exception", f"a plain repair fix={c['fix']} cleanup={c['cleanup']} raises {r['res'][4:]}", {"case": c, "fault_result": r})
+                return
             if r.get("res") != "end":
                 rep.machinery_failure("calibration of the repair failed: " + str(r)[:300])
                 return
